@@ -543,9 +543,22 @@ where
     P::BaseField: OracleRepr,
 {
     let tw = <P::BaseField as OracleRepr>::tower();
-    out.push(identities(format!("swu.params/{}", name), 2, move |t, o| {
+    out.push(identities(format!("swu.params/{}", name), 3, move |t, o| {
         o.nt(true);
-        match t.below(2) {
+        match t.below(3) {
+            2 => {
+                // the exceptional case of the map (u = 0, or ZETA^2 u^4 + ZETA u^2 = 0) takes x1 = B / (ZETA * A) and
+                // needs g(x1) to be a square (RFC 9380 section 6.6.2 criterion 4, [WB2019] section 4)
+                let (a, b) = (P::COEFF_A, P::COEFF_B);
+                let x1 = match (P::ZETA * a).inverse() {
+                    Some(i) => b * i,
+                    None => return check(false, "swu.zeta-a-zero", || "ZETA * A = 0".into()),
+                };
+                let g = (x1.square() + a) * x1 + b;
+                let ge = g.to_o();
+                o.show(|| format!("{}: g(B / (ZETA * A)) = {} is a square", name, show_elem(&tw, &ge)));
+                check(tw.is_square(&ge), "ZETA.exceptional-case", || format!("g(B/(ZETA*A)) = {} is not a square: map_to_curve(0) has no image", show_elem(&tw, &ge)))
+            },
             0 => {
                 let z = P::ZETA.to_o();
                 o.show(|| format!("{}: ZETA = {} is not a square", name, show_elem(&tw, &z)));
